@@ -118,7 +118,7 @@ class Gen:
             t = tensor(dy_array(rng, shape, cplx=True))
             return P.Parameter.from_input(t)
         if k == "pos":
-            t = tensor(dy_array(rng, shape, 0, 8))
+            t = tensor(dy_array(rng, shape, 1 if o.get("strict") else 0, 8))
             self.tensors.append(t)
             return P.Parameter.from_input(t)
         if k == "const":
@@ -148,7 +148,7 @@ class Gen:
             N = dpar
             self.doms[v] = ("disc", N)
             if o.get("monotone"):
-                w = P.Parameter.from_input(tensor(dy_array(rng, (K, N), 0, 8)))
+                w = P.Parameter.from_input(tensor(dy_array(rng, (K, N), 1 if o.get("strict") else 0, 8)))
             elif o.get("cplx"):
                 w = P.Parameter.from_input(tensor(dy_array(rng, (K, N), cplx=True)))
             else:
@@ -188,7 +188,7 @@ class Gen:
             if o.get("cplx"):
                 c = tensor(dy_array(rng, (K, deg + 1), cplx=True))
             elif o.get("monotone"):
-                c = tensor(dy_array(rng, (K, deg + 1), 0, 8))
+                c = tensor(dy_array(rng, (K, deg + 1), 1 if o.get("strict") else 0, 8))
             else:
                 c = tensor(dy_array(rng, (K, deg + 1)))
             return L.PolynomialLayer(sc, K, degree=deg, coeff=P.Parameter.from_input(c))
